@@ -331,10 +331,15 @@ let run_expand (x : sexp) : string =
   | L mods ->
       let keys = List.map (function L (A "M" :: A path :: _) -> path | _ -> failwith "module") mods in
       let pmods = List.map (function L (A "M" :: A path :: ds) -> (intern ("path:" ^ path), List.map (expand_decl path) ds) | _ -> failwith "module") mods in
-      (* get_key_offset: exact match of the filename among the module paths (flat names only) *)
-      let resolve (_includer : coq_N) (file : coq_N) : Datatypes.nat option =
-        let rec find i = function [] -> None | k :: r -> if intern ("path:" ^ k) = file then Some (nat_of_int i) else find (i + 1) r in
-        find 0 keys in
+      (* get_key_offset: the model's own resolution on path components *)
+      let comps (p : string) = List.map (fun c -> intern ("comp:" ^ c)) (List.filter (fun c -> c <> "") (String.split_on_char '/' p)) in
+      let key_comps = List.map comps keys in
+      let path_names : (int, string) Hashtbl.t = Hashtbl.create 16 in
+      List.iter (fun k -> Hashtbl.replace path_names (int_of_n (intern ("path:" ^ k))) k) keys;
+      List.iter (function L (A "M" :: _ :: ds) -> List.iter (function L [A "import"; A f] -> Hashtbl.replace path_names (int_of_n (intern ("path:" ^ f))) f | _ -> ()) ds | _ -> ()) mods;
+      let resolve (includer : coq_N) (file : coq_N) : Datatypes.nat option =
+        let name n = try Hashtbl.find path_names (int_of_n n) with Not_found -> "" in
+        Expand.get_key_offset (comps (name file)) key_comps (comps (name includer)) in
       let hint (_ : coq_N) = false in
       let res = Expand.expand_sorted resolve hint pmods in
       "(" ^ String.concat " " (List.map2 (fun k (_, ds) -> "(M " ^ k ^ " " ^ String.concat " " (List.map show_expand_decl ds) ^ ")") keys res) ^ ")"
